@@ -121,10 +121,19 @@ def check_hex_reader(facts, path):
         return [(False, "missing-anchor:" + path, "missing anchor")]
     ft = fn_terms(facts, path)
     rets = [ft.return_term(b) for b in ft.return_blocks()]
-    parse = [x for t in rets for x in walk(t) if x[0] == "call" and isinstance(x[1], str) and x[1].endswith("from_str_radix")]
-    if len(rets) != 1 or len(parse) != 1:
+    pcs = [c for c in ft.calls() if c.callee and c.callee.endswith("from_str_radix")]
+    if len(rets) != 1 or len(pcs) != 1:
         return [(False, "reader-shape", "unrecognised idiom - cannot decide: result is %s" % [fmt(t) for t in rets])]
-    pc = parse[0]
+    if True:
+        cand = {strip_site(x): x for b in ft.return_blocks() for x in walk(ft.return_term(b)) if x[0] == "call" and isinstance(x[1], str) and x[1].endswith("from_str_radix")}
+        for b in sorted(ft.cfg.reach):
+            if ft.blocks[b]["term"]["k"] == "switch":
+                for x in walk(ft.switch_term(b)):
+                    if x[0] == "call" and isinstance(x[1], str) and x[1].endswith("from_str_radix"):
+                        cand[strip_site(x)] = x
+        if len(cand) != 1:
+            return [(False, "reader-shape", "unrecognised idiom - cannot decide: result is %s" % [fmt(t) for t in rets])]
+        pc = list(cand.values())[0]
     res.append((pc[1] == "core::num::<impl u64>::from_str_radix", "reader-width", "parser is %s (must be the u64 one)" % pc[1]))
     src = pc[2][0]
     while src[0] in ("ref", "deref"):
@@ -133,12 +142,29 @@ def check_hex_reader(facts, path):
     res.append((const_int(pc[2][1]) == 16, "reader-radix", "radix is %s" % fmt(pc[2][1])))
     # what happens to the Result: only error-mapping combinators / `?` re-wrapping may touch it
     t = rets[0]
-    wrappers = [x[1] for x in walk(t) if x[0] == "call" and isinstance(x[1], str) and x is not pc]
-    okw = {"std::result::Result::map_err"}
-    bad = [w for w in wrappers if w not in okw]
-    res.append((not bad and t[0] == "call", "reader-error-propagated",
-                "parse result flows to the caller through %s" % (sorted(set(wrappers)) or "nothing") if not bad else
-                "parse result is post-processed by %s (a default or truncation would hide the error)" % bad))
+    if t[0] == "call":
+        wrappers = [x[1] for x in walk(t) if x[0] == "call" and isinstance(x[1], str) and x is not pc]
+        okw = {"std::result::Result::map_err"}
+        bad = [w for w in wrappers if w not in okw]
+        res.append((not bad, "reader-error-propagated",
+                    "parse result flows to the caller through %s" % (sorted(set(wrappers)) or "nothing") if not bad else
+                    "parse result is post-processed by %s (a default or truncation would hide the error)" % bad))
+        return res
+    # explicit match on the parse result: Ok(v) => Ok(v) with the parsed value itself, Err(_) => Err(_)
+    from ..query import returns_under, is_variant
+    d = ("discr", pc)
+    oks = returns_under(ft, {strip_site(d): 0})
+    errs = returns_under(ft, {strip_site(d): 1})
+
+    def same_value(r):
+        if not is_variant(r, "Ok"):
+            return False
+        v = r[3][0]
+        return v[0] == "payload" and v[1] == "Ok" and strip_site(v[2]) == strip_site(pc)
+    good = bool(oks) and bool(errs) and all(same_value(r) for r in oks) and all(is_variant(r, "Err") for r in errs)
+    res.append((good, "reader-error-propagated",
+                "match on the parse result: Ok arm returns %s, Err arm returns %s (must be the parsed value itself / an error)" % (
+                    [fmt(r)[:60] for r in oks], ["Err" if is_variant(r, "Err") else fmt(r)[:60] for r in errs])))
     return res
 
 
